@@ -318,7 +318,8 @@ def report(a, seed, cons, results, extra, t_start):
     # the verifier output only)
     from concurrent.futures import ThreadPoolExecutor
     todo = [(p, r) for p, r in pending
-            if r["cex"] is not None or r.get("replay")][:MAX_REPLAYS]
+            if r["cex"] is not None or r.get("replay") or
+            r.get("function")][:MAX_REPLAYS]
     with ThreadPoolExecutor(max_workers=4) as ex:
         outs = list(ex.map(lambda pr: run_replay(pr[0]), todo))
     done = {p: o for (p, _r), o in zip(todo, outs)}
